@@ -1,151 +1,209 @@
 ----------------------------- MODULE FindProof -----------------------------
 (* TLAPS proof that the repaired walk (Variant = "fixed") of Find.tla satisfies CorrectP and        *)
-(* NeverAboveStop for EVERY depth of the directory chain and every set of path spellings: the       *)
-(* model checker covers Depth <= 3 exhaustively, this removes the bound.  CorrectP is Correct        *)
-(* without CHOOSE; TLC checks `CorrectAgree` (the two formulations agree) in every bounded run.      *)
+(* NeverAboveStop for EVERY depth of the directory chain, every place the unrelated directory can    *)
+(* hang and every set of path spellings: the model checker covers Depth <= 3 exhaustively, this      *)
+(* removes the bound.  CorrectP is Correct without CHOOSE; TLC checks `CorrectAgree` (the two        *)
+(* formulations agree) in every bounded run.                                                         *)
 (* Checked with: tlapm --threads 16 FindProof.tla   (tools/check C17 --tier thorough runs it)        *)
 EXTENDS Find, TLAPS
 
 ASSUME DepthNat == Depth \in Nat
 ASSUME Fixed == Variant = "fixed"
 
-\* directories already left behind on the way from start up to cur
-Passed == IF cur = start THEN {}
-          ELSE IF start = U THEN {U}
-          ELSE IF cur = Root THEN 0..start ELSE (cur + 1)..start
-OnChain == cur = start \/ cur = Root \/ (start \in Levels /\ cur \in 0..start)
+\* directories already left behind on the way from start up to cur: those nearer to start than cur
+Passed == {d \in Ancestors(start) : RankOf(d) > RankOf(cur)}
 
 IInv ==
-  /\ spok \in [Dirs -> Kinds] /\ start \in Dirs /\ stop \in Dirs
+  /\ spok \in [Dirs -> Kinds] /\ start \in Dirs /\ stop \in Dirs /\ ua \in Levels \cup {Root}
   /\ phase \in {"abs", "scan", "stoptest", "up", "done"}
-  /\ OnChain
+  /\ cur \in AncestorsR(start)
   /\ phase = "abs" => cur = start
   /\ phase # "abs" => curSp = "clean" /\ stopSp = "clean"
   /\ phase # "done" => /\ result = NoRes
-                       /\ \A d \in Passed : spok[d] # "file" /\ d # stop
-  /\ phase \in {"stoptest", "up"} => (cur = Root \/ spok[cur] # "file")
-  /\ phase = "up" => cur # stop /\ cur # Root
+                       /\ \A d \in Passed : spok[d] # "file"
+  /\ phase \in {"stoptest", "up"} => cur # Root /\ ~Above(cur, stop) /\ spok[cur] # "file"
   /\ CorrectP
 
 LEMMA Consts == /\ U = -1 /\ Root = -2 /\ NotFound = -7 /\ NoRes = -8
                 /\ Levels = 0..Depth /\ Dirs = (0..Depth) \cup {-1}
   BY DEF U, Root, NotFound, NoRes, Levels, Dirs
 
+\* ---- the shape of the tree: the directories at or above start form a chain ordered by RankOf ----
+\* (stated for arbitrary a, b instead of the state variables so that they can be used at any point)
+LEMMA ChainFacts ==
+  ASSUME ua \in Levels \cup {Root}, start \in Dirs
+  PROVE  /\ \A a, b \in AncestorsR(start) : RankOf(a) = RankOf(b) => a = b
+         /\ \A a, b \in AncestorsR(start) : RankOf(a) < RankOf(b) => Above(a, b)
+         /\ \A a \in AncestorsR(start) : RankOf(a) \in Int /\ RankOf(a) >= -1
+         /\ \A a \in Ancestors(start) : Parent(a) \in AncestorsR(start) /\ RankOf(Parent(a)) = RankOf(a) - 1 /\ a # Root
+         /\ \A a \in Ancestors(start) : RankOf(a) <= RankOf(start)
+  BY Consts, DepthNat DEF AncestorsR, Ancestors, RankOf, Above, Parent
+
+LEMMA AboveTrans ==
+  ASSUME ua \in Levels \cup {Root}, NEW a \in Dirs \cup {Root}, NEW b \in Dirs \cup {Root}, NEW c \in Dirs,
+         Above(a, b), Above(b, c)
+  PROVE  Above(a, c)
+  BY Consts, DepthNat DEF Above, Ancestors
+
 LEMMA InitInv == Init => IInv
   <1> SUFFICES ASSUME Init PROVE IInv OBVIOUS
   <1>1. phase = "abs" /\ cur = start /\ result = NoRes BY Fixed DEF Init
-  <1>2. spok \in [Dirs -> Kinds] /\ start \in Dirs /\ stop \in Dirs BY DEF Init
-  <1>3. Passed = {} BY <1>1 DEF Passed
-  <1> QED BY <1>1, <1>2, <1>3 DEF IInv, OnChain, CorrectP
+  <1>2. spok \in [Dirs -> Kinds] /\ start \in Dirs /\ stop \in Dirs /\ ua \in Levels \cup {Root}
+    BY DEF Init
+  <1>3. Passed = {}
+    <2>1. \A a \in Ancestors(start) : RankOf(a) <= RankOf(start) /\ RankOf(a) \in Int
+      BY <1>2, ChainFacts DEF AncestorsR
+    <2>2. RankOf(start) \in Int BY <1>2, ChainFacts, Consts, DepthNat DEF AncestorsR, Ancestors
+    <2> QED BY <2>1, <2>2, <1>1 DEF Passed
+  <1>4. cur \in AncestorsR(start) BY <1>1, <1>2, Consts, DepthNat DEF AncestorsR, Ancestors
+  <1> QED BY <1>1, <1>2, <1>3, <1>4 DEF IInv, CorrectP
 
 LEMMA AbsInv == IInv /\ Abs => IInv'
   <1> SUFFICES ASSUME IInv, Abs PROVE IInv' OBVIOUS
   <1>1. /\ phase = "abs" /\ phase' = "scan" /\ curSp' = "clean" /\ stopSp' = "clean"
-        /\ spok' = spok /\ start' = start /\ stop' = stop /\ cur' = cur /\ result' = result
+        /\ spok' = spok /\ start' = start /\ stop' = stop /\ ua' = ua /\ cur' = cur /\ result' = result
     BY DEF Abs, cfgv
   <1>2. cur = start /\ result = NoRes BY <1>1 DEF IInv
-  <1>3. Passed' = {} BY <1>1, <1>2 DEF Passed
-  <1> QED BY <1>1, <1>2, <1>3 DEF IInv, OnChain, CorrectP
+  <1>3. Passed' = Passed BY <1>1 DEF Passed, Ancestors, RankOf
+  <1>4. AncestorsR(start)' = AncestorsR(start) BY <1>1 DEF AncestorsR, Ancestors
+  <1>5. \A d \in Passed : spok[d] # "file" BY <1>1 DEF IInv
+  <1> QED BY <1>1, <1>2, <1>3, <1>4, <1>5 DEF IInv, CorrectP
+
+\* what does not change in Scan and StopTest
+LEMMA Frame ==
+  ASSUME spok' = spok, start' = start, stop' = stop, ua' = ua, cur' = cur
+  PROVE  /\ Passed' = Passed /\ AncestorsR(start)' = AncestorsR(start) /\ Hits' = Hits
+         /\ (\A m \in Hits : RankOf(m)' = RankOf(m)) /\ RankOf(cur)' = RankOf(cur)
+         /\ Above(cur, stop)' = Above(cur, stop)
+  BY DEF Passed, AncestorsR, Ancestors, Hits, Cands, Above, RankOf
+
+\* no candidate holds a spokfile when the walk stands at cur, nothing nearer held one, and cur itself is out
+LEMMA NoHits ==
+  ASSUME IInv, phase # "done", cur = Root \/ Above(cur, stop) \/ (cur = stop /\ spok[cur] # "file")
+  PROVE  Hits = {}
+  <1> SUFFICES ASSUME NEW m \in Hits PROVE FALSE OBVIOUS
+  <1>0. /\ ua \in Levels \cup {Root} /\ start \in Dirs /\ stop \in Dirs /\ cur \in AncestorsR(start)
+        /\ \A d \in Passed : spok[d] # "file"
+    BY DEF IInv
+  <1>1. m \in Ancestors(start) /\ ~Above(m, stop) /\ spok[m] = "file" BY DEF Hits, Cands
+  <1>2. m \in AncestorsR(start) BY <1>1 DEF AncestorsR
+  <1>3. ~(RankOf(m) > RankOf(cur)) BY <1>0, <1>1 DEF Passed
+  <1>4. RankOf(m) \in Int /\ RankOf(cur) \in Int BY <1>0, <1>2, ChainFacts
+  <1>5. CASE RankOf(m) = RankOf(cur)
+    <2>1. m = cur BY <1>5, <1>0, <1>2, ChainFacts
+    <2>2. cur # Root BY <2>1, <1>1, Consts, DepthNat DEF Ancestors
+    <2> QED BY <2>1, <2>2, <1>1
+  <1>6. CASE RankOf(m) < RankOf(cur)
+    <2>1. Above(m, cur) BY <1>6, <1>0, <1>2, ChainFacts
+    <2>2. cur # Root BY <2>1, Consts, DepthNat DEF Above, Ancestors
+    <2>3. cur \in Dirs /\ m \in Dirs \cup {Root}
+      BY <2>2, <1>0, <1>1, Consts, DepthNat DEF AncestorsR, Ancestors
+    <2>4. CASE Above(cur, stop)
+      BY <2>1, <2>3, <2>4, <1>0, <1>1, AboveTrans
+    <2>5. CASE cur = stop
+      BY <2>1, <2>5, <1>1
+    <2> QED BY <2>2, <2>4, <2>5
+  <1> QED BY <1>3, <1>4, <1>5, <1>6
 
 LEMMA ScanInv == IInv /\ Scan => IInv'
   <1> SUFFICES ASSUME IInv, Scan PROVE IInv' OBVIOUS
-  <1>0. /\ phase = "scan" /\ spok' = spok /\ start' = start /\ stop' = stop /\ cur' = cur
+  <1>0. /\ phase = "scan" /\ spok' = spok /\ start' = start /\ stop' = stop /\ ua' = ua /\ cur' = cur
         /\ curSp' = curSp /\ stopSp' = stopSp
     BY DEF Scan, cfgv
-  <1>a. /\ result = NoRes /\ \A d \in Passed : spok[d] # "file" /\ d # stop
-        /\ OnChain /\ curSp = "clean" /\ stopSp = "clean"
-        /\ spok \in [Dirs -> Kinds] /\ start \in Dirs /\ stop \in Dirs
+  <1>a. /\ result = NoRes /\ \A d \in Passed : spok[d] # "file"
+        /\ cur \in AncestorsR(start) /\ curSp = "clean" /\ stopSp = "clean"
+        /\ spok \in [Dirs -> Kinds] /\ start \in Dirs /\ stop \in Dirs /\ ua \in Levels \cup {Root}
     BY <1>0 DEF IInv
-  <1>b. Passed' = Passed /\ OnChain' = OnChain BY <1>0 DEF Passed, OnChain
-  <1>1. CASE cur # Root /\ spok[cur] = "file"
-    <2>1. result' = cur /\ phase' = "done" BY <1>1, Fixed DEF Scan
-    <2>2. CorrectP'
-      <3> USE Consts, DepthNat
-      <3>1. CASE Constrained
-        <4>1. start \in Levels /\ stop \in Levels /\ stop <= start BY <3>1 DEF Constrained
-        <4>2. cur \in stop..start
-          BY <4>1, <1>a, <1>1 DEF OnChain, Passed
-        <4>3. cur \in Hits BY <4>2, <1>1 DEF Hits
-        <4>4. \A m \in Hits : m <= cur
-          BY <4>1, <4>2, <1>a DEF Hits, Passed, OnChain
-        <4> QED BY <4>1, <4>3, <4>4, <2>1, <1>0, <3>1 DEF CorrectP, Constrained, Hits
-      <3>2. CASE ~Constrained /\ start \in Levels /\ stop \in Levels
-        <4>1. cur \in Ancestors(start) BY <3>2, <1>a, <1>1 DEF OnChain, Ancestors
-        <4> QED BY <4>1, <3>2, <2>1, <1>0, <1>1 DEF CorrectP, Constrained, Ancestors
-      <3>3. CASE ~(start \in Levels /\ stop \in Levels)
-        <4> DEFINE H == {l \in Ancestors(start) : spok[l] = "file"}
-        <4>0. ~Constrained BY <3>3 DEF Constrained
-        <4>1. cur \in H BY <1>a, <1>1 DEF OnChain, Ancestors
-        <4>2. \A m \in H : m <= cur BY <1>a, <1>1 DEF OnChain, Ancestors, Passed
-        <4> QED BY <4>0, <4>1, <4>2, <3>3, <2>1, <1>0 DEF CorrectP, Constrained, Ancestors
-      <3> QED BY <3>1, <3>2, <3>3
-    <2> QED BY <2>1, <2>2, <1>0, <1>a, <1>b DEF IInv
-  <1>2. CASE ~(cur # Root /\ spok[cur] = "file")
-    <2>1. result' = result /\ phase' = "stoptest" BY <1>2, Fixed DEF Scan
+  <1>b. /\ Passed' = Passed /\ AncestorsR(start)' = AncestorsR(start) /\ Hits' = Hits
+        /\ (\A m \in Hits : RankOf(m)' = RankOf(m)) /\ RankOf(cur)' = RankOf(cur)
+        /\ Above(cur, stop)' = Above(cur, stop)
+    BY <1>0, Frame
+  <1>1. CASE Above(cur, stop)
+    <2>1. result' = NotFound /\ phase' = "done" BY <1>1, Fixed DEF Scan
+    <2>2. Hits = {} BY <1>1, <1>0, NoHits
+    <2>3. CorrectP' BY <2>1, <2>2, <1>b DEF CorrectP
+    <2> QED BY <2>1, <2>3, <1>0, <1>a, <1>b DEF IInv
+  <1>2. CASE ~Above(cur, stop) /\ cur # Root /\ spok[cur] = "file"
+    <2>1. result' = cur /\ phase' = "done" BY <1>2, Fixed DEF Scan
+    <2>2. cur \in Ancestors(start) BY <1>2, <1>a DEF AncestorsR
+    <2>3. cur \in Hits BY <2>2, <1>2 DEF Hits, Cands
+    <2>4. \A m \in Hits : RankOf(m) <= RankOf(cur)
+      <3> SUFFICES ASSUME NEW m \in Hits PROVE RankOf(m) <= RankOf(cur) OBVIOUS
+      <3>1. m \in Ancestors(start) /\ spok[m] = "file" BY DEF Hits, Cands
+      <3>2. ~(RankOf(m) > RankOf(cur)) BY <3>1, <1>a DEF Passed
+      <3>3. RankOf(m) \in Int /\ RankOf(cur) \in Int BY <3>1, <1>a, ChainFacts DEF AncestorsR
+      <3> QED BY <3>2, <3>3
+    <2>5. CorrectP' BY <2>1, <2>3, <2>4, <1>b DEF CorrectP
+    <2> QED BY <2>1, <2>5, <1>0, <1>a, <1>b DEF IInv
+  <1>3. CASE ~Above(cur, stop) /\ ~(cur # Root /\ spok[cur] = "file")
+    <2>1. result' = result /\ phase' = "stoptest" BY <1>3, Fixed DEF Scan
     <2>2. CorrectP' BY <2>1 DEF CorrectP
-    <2> QED BY <2>1, <2>2, <1>0, <1>a, <1>b, <1>2 DEF IInv
-  <1> QED BY <1>1, <1>2
+    <2>3. cur # Root BY <1>3, <1>a, Consts, DepthNat DEF Above, Ancestors
+    <2> QED BY <2>1, <2>2, <2>3, <1>0, <1>a, <1>b, <1>3 DEF IInv
+  <1> QED BY <1>1, <1>2, <1>3
 
 LEMMA StopTestInv == IInv /\ StopTest => IInv'
   <1> SUFFICES ASSUME IInv, StopTest PROVE IInv' OBVIOUS
-  <1>0. /\ phase = "stoptest" /\ spok' = spok /\ start' = start /\ stop' = stop /\ cur' = cur
+  <1>0. /\ phase = "stoptest" /\ spok' = spok /\ start' = start /\ stop' = stop /\ ua' = ua /\ cur' = cur
         /\ curSp' = curSp /\ stopSp' = stopSp
     BY DEF StopTest, cfgv
-  <1>a. /\ result = NoRes /\ \A d \in Passed : spok[d] # "file" /\ d # stop
-        /\ OnChain /\ curSp = "clean" /\ stopSp = "clean"
-        /\ spok \in [Dirs -> Kinds] /\ start \in Dirs /\ stop \in Dirs
-        /\ (cur = Root \/ spok[cur] # "file")
+  <1>a. /\ result = NoRes /\ \A d \in Passed : spok[d] # "file"
+        /\ cur \in AncestorsR(start) /\ curSp = "clean" /\ stopSp = "clean"
+        /\ spok \in [Dirs -> Kinds] /\ start \in Dirs /\ stop \in Dirs /\ ua \in Levels \cup {Root}
+        /\ cur # Root /\ ~Above(cur, stop) /\ spok[cur] # "file"
     BY <1>0 DEF IInv
-  <1>b. Passed' = Passed /\ OnChain' = OnChain BY <1>0 DEF Passed, OnChain
+  <1>b. /\ Passed' = Passed /\ AncestorsR(start)' = AncestorsR(start) /\ Hits' = Hits
+        /\ (\A m \in Hits : RankOf(m)' = RankOf(m)) /\ RankOf(cur)' = RankOf(cur)
+        /\ Above(cur, stop)' = Above(cur, stop)
+    BY <1>0, Frame
   <1>c. SameString <=> cur = stop BY <1>a DEF SameString
-  <1>d. NoParent <=> cur = Root
-    BY <1>a, Consts, DepthNat DEF NoParent, DirOf, Parent, OnChain
-  <1>1. CASE cur = stop \/ cur = Root
-    <2>1. result' = NotFound /\ phase' = "done" BY <1>1, <1>c, <1>d DEF StopTest
-    <2>2. CorrectP'
-      <3> USE Consts, DepthNat
-      <3>1. CASE Constrained
-        <4>1. start \in Levels /\ stop \in Levels /\ stop <= start BY <3>1 DEF Constrained
-        <4>2. Hits = {}
-          BY <4>1, <1>a, <1>1 DEF Hits, Passed, OnChain
-        <4> QED BY <4>2, <2>1, <1>0, <3>1 DEF CorrectP, Constrained, Hits
-      <3>2. CASE ~Constrained /\ start \in Levels /\ stop \in Levels
-        BY <3>2, <2>1, <1>0 DEF CorrectP, Constrained
-      <3>3. CASE ~(start \in Levels /\ stop \in Levels)
-        <4>0. ~Constrained BY <3>3 DEF Constrained
-        <4>1. {l \in Ancestors(start) : spok[l] = "file"} = {}
-          BY <3>3, <1>a, <1>1 DEF Ancestors, Passed, OnChain
-        <4> QED BY <4>0, <4>1, <3>3, <2>1, <1>0 DEF CorrectP, Constrained, Ancestors
-      <3> QED BY <3>1, <3>2, <3>3
-    <2> QED BY <2>1, <2>2, <1>0, <1>a, <1>b DEF IInv
-  <1>2. CASE ~(cur = stop \/ cur = Root)
+  <1>d. ~NoParent
+    BY <1>a, Consts, DepthNat DEF NoParent, DirOf, Parent, AncestorsR, Ancestors
+  <1>1. CASE cur = stop
+    <2>1. result' = NotFound /\ phase' = "done" BY <1>1, <1>c DEF StopTest
+    <2>2. Hits = {} BY <1>1, <1>0, <1>a, NoHits
+    <2>3. CorrectP' BY <2>1, <2>2, <1>b DEF CorrectP
+    <2> QED BY <2>1, <2>3, <1>0, <1>a, <1>b DEF IInv
+  <1>2. CASE cur # stop
     <2>1. result' = result /\ phase' = "up" BY <1>2, <1>c, <1>d DEF StopTest
     <2>2. CorrectP' BY <2>1 DEF CorrectP
-    <2> QED BY <2>1, <2>2, <1>0, <1>a, <1>b, <1>2 DEF IInv
+    <2> QED BY <2>1, <2>2, <1>0, <1>a, <1>b DEF IInv
   <1> QED BY <1>1, <1>2
 
 LEMMA UpInv == IInv /\ Up => IInv'
   <1> SUFFICES ASSUME IInv, Up PROVE IInv' OBVIOUS
-  <1> USE Consts, DepthNat
-  <1>0. /\ phase = "up" /\ phase' = "scan" /\ spok' = spok /\ start' = start /\ stop' = stop
+  <1>0. /\ phase = "up" /\ phase' = "scan" /\ spok' = spok /\ start' = start /\ stop' = stop /\ ua' = ua
         /\ result' = result /\ stopSp' = stopSp /\ cur' = DirOf[1] /\ curSp' = DirOf[2]
     BY DEF Up, cfgv
-  <1>a. /\ result = NoRes /\ \A d \in Passed : spok[d] # "file" /\ d # stop
-        /\ OnChain /\ curSp = "clean" /\ stopSp = "clean"
-        /\ spok \in [Dirs -> Kinds] /\ start \in Dirs /\ stop \in Dirs
-        /\ spok[cur] # "file" /\ cur # stop /\ cur # Root
+  <1>a. /\ result = NoRes /\ \A d \in Passed : spok[d] # "file"
+        /\ cur \in AncestorsR(start) /\ curSp = "clean" /\ stopSp = "clean"
+        /\ spok \in [Dirs -> Kinds] /\ start \in Dirs /\ stop \in Dirs /\ ua \in Levels \cup {Root}
+        /\ cur # Root /\ spok[cur] # "file"
     BY <1>0 DEF IInv
   <1>1. DirOf = <<Parent(cur), "clean">> BY <1>a DEF DirOf
   <1>2. cur' = Parent(cur) /\ curSp' = "clean" BY <1>0, <1>1
-  <1>3. OnChain' BY <1>2, <1>0, <1>a DEF OnChain, Parent
-  <1>4. \A d \in Passed' : d \in Passed \/ d = cur
-    BY <1>2, <1>0, <1>a DEF Passed, OnChain, Parent
-  <1>5. \A d \in Passed' : spok[d] # "file" /\ d # stop BY <1>4, <1>a
-  <1>6. CorrectP' BY <1>0 DEF CorrectP
-  <1> QED BY <1>0, <1>2, <1>3, <1>5, <1>6, <1>a DEF IInv
+  <1>3. cur \in Ancestors(start) BY <1>a DEF AncestorsR
+  <1>4. Parent(cur) \in AncestorsR(start) /\ RankOf(Parent(cur)) = RankOf(cur) - 1
+    BY <1>3, <1>a, ChainFacts
+  <1>5. AncestorsR(start)' = AncestorsR(start) /\ Ancestors(start)' = Ancestors(start)
+    BY <1>0 DEF AncestorsR, Ancestors
+  <1>6. \A d \in Passed' : spok[d] # "file"
+    <2> SUFFICES ASSUME NEW d \in Passed' PROVE spok[d] # "file" OBVIOUS
+    <2>1. d \in Ancestors(start) /\ RankOf(d) > RankOf(Parent(cur))
+      BY <1>0, <1>2, <1>5 DEF Passed, RankOf, Ancestors
+    <2>2. RankOf(d) \in Int /\ RankOf(cur) \in Int /\ d \in AncestorsR(start)
+      BY <2>1, <1>a, ChainFacts DEF AncestorsR
+    <2>3. RankOf(d) > RankOf(cur) \/ RankOf(d) = RankOf(cur) BY <2>1, <2>2, <1>4
+    <2>4. CASE RankOf(d) > RankOf(cur) BY <2>4, <2>1, <1>a DEF Passed
+    <2>5. CASE RankOf(d) = RankOf(cur)
+      <3>1. d = cur BY <2>5, <2>2, <1>a, ChainFacts
+      <3> QED BY <3>1, <1>a
+    <2> QED BY <2>3, <2>4, <2>5
+  <1>7. CorrectP' BY <1>0 DEF CorrectP
+  <1> QED BY <1>0, <1>2, <1>4, <1>5, <1>6, <1>7, <1>a DEF IInv
 
 LEMMA StutterInv == IInv /\ UNCHANGED vars => IInv'
-  BY DEF IInv, vars, OnChain, Passed, CorrectP, Constrained, Hits, Ancestors
+  BY DEF IInv, vars, Passed, CorrectP, Hits, Cands, Ancestors, AncestorsR, Above, RankOf
 
 THEOREM Safety == Spec => []IInv
   <1>1. Init => IInv BY InitInv
@@ -156,47 +214,51 @@ THEOREM Safety == Spec => []IInv
 THEOREM CorrectForEveryDepth == Spec => []CorrectP
   BY Safety, PTL DEF IInv
 
-\* the walk never inspects a directory above the stop directory
+\* nothing above the stop directory is ever returned
 THEOREM NeverAbove == Spec => []NeverAboveStop
   <1>1. IInv => NeverAboveStop
-    BY Consts, DepthNat DEF IInv, NeverAboveStop, Constrained, OnChain, Passed
+    BY Consts, DepthNat DEF IInv, NeverAboveStop, CorrectP, Hits, Cands
   <1> QED BY <1>1, Safety, PTL
 
 \* ---------------------------------------------------------------------------------------------------------------------
 \* Termination for every depth, as a ranking argument: Rank is a natural number that every step other than stuttering
 \* strictly decreases, and while phase # "done" the action of that phase is enabled (its guard is the phase alone); under the
 \* weak fairness of Spec the walk therefore reaches "done".  (TLC checks the temporal property Terminates itself for
-\* Depth <= 3; this removes the bound from the decreasing-measure half of the argument.)
-Dist(d) == IF d = Root THEN 0 ELSE IF d = U THEN 1 ELSE d + 1
+\* small depths; this removes the bound from the decreasing-measure half of the argument.)
 PhaseRank == CASE phase = "abs" -> 4 [] phase = "scan" -> 3 [] phase = "stoptest" -> 2 [] phase = "up" -> 1 [] OTHER -> 0
-Rank == IF phase = "done" THEN 0 ELSE 4 * Dist(cur) + PhaseRank
+Rank == IF phase = "done" THEN 0 ELSE 4 * (RankOf(cur) + 1) + PhaseRank
 
 LEMMA RankNat == IInv => Rank \in Nat
-  BY Consts, DepthNat DEF IInv, OnChain, Rank, Dist, PhaseRank
+  <1> SUFFICES ASSUME IInv PROVE Rank \in Nat OBVIOUS
+  <1>1. RankOf(cur) \in Int /\ RankOf(cur) >= -1 BY ChainFacts DEF IInv
+  <1> QED BY <1>1 DEF Rank, PhaseRank
 
 THEOREM RankDecreases == IInv /\ IInv' /\ [Next]_vars => (Rank' < Rank \/ UNCHANGED vars)
   <1> SUFFICES ASSUME IInv, IInv', [Next]_vars PROVE Rank' < Rank \/ UNCHANGED vars OBVIOUS
-  <1> USE Consts, DepthNat
-  <1>0. cur \in Int /\ (cur = Root \/ cur = U \/ cur \in 0..Depth)
-    BY DEF IInv, OnChain
+  <1>0. RankOf(cur) \in Int /\ RankOf(cur) >= -1 BY ChainFacts DEF IInv
   <1>1. CASE Abs
-    BY <1>1, <1>0 DEF Abs, cfgv, Rank, Dist, PhaseRank
+    <2>1. phase = "abs" /\ phase' = "scan" /\ cur' = cur /\ ua' = ua BY <1>1 DEF Abs, cfgv
+    <2>2. RankOf(cur)' = RankOf(cur) BY <2>1 DEF RankOf
+    <2> QED BY <2>1, <2>2, <1>0 DEF Rank, PhaseRank
   <1>2. CASE Scan
-    <2>1. phase = "scan" /\ cur' = cur /\ phase' \in {"done", "stoptest"}
+    <2>1. phase = "scan" /\ cur' = cur /\ ua' = ua /\ phase' \in {"done", "stoptest"}
       BY <1>2, Fixed DEF Scan, cfgv
-    <2> QED BY <2>1, <1>0 DEF Rank, Dist, PhaseRank
+    <2>2. RankOf(cur)' = RankOf(cur) BY <2>1 DEF RankOf
+    <2> QED BY <2>1, <2>2, <1>0 DEF Rank, PhaseRank
   <1>3. CASE StopTest
-    <2>1. phase = "stoptest" /\ cur' = cur /\ phase' \in {"done", "up"}
+    <2>1. phase = "stoptest" /\ cur' = cur /\ ua' = ua /\ phase' \in {"done", "up"}
       BY <1>3 DEF StopTest, cfgv
-    <2> QED BY <2>1, <1>0 DEF Rank, Dist, PhaseRank
+    <2>2. RankOf(cur)' = RankOf(cur) BY <2>1 DEF RankOf
+    <2> QED BY <2>1, <2>2, <1>0 DEF Rank, PhaseRank
   <1>4. CASE Up
-    <2>1. phase = "up" /\ phase' = "scan" /\ cur' = DirOf[1] BY <1>4 DEF Up
-    <2>2. curSp = "clean" /\ cur # Root BY <2>1 DEF IInv
+    <2>1. phase = "up" /\ phase' = "scan" /\ cur' = DirOf[1] /\ ua' = ua BY <1>4 DEF Up, cfgv
+    <2>2. curSp = "clean" /\ cur # Root /\ cur \in AncestorsR(start) /\ ua \in Levels \cup {Root} /\ start \in Dirs
+      BY <2>1 DEF IInv
     <2>3. DirOf = <<Parent(cur), "clean">> BY <2>2 DEF DirOf
     <2>4. cur' = Parent(cur) BY <2>1, <2>3
-    <2>5. Dist(cur') + 1 <= Dist(cur) BY <2>4, <2>2, <1>0 DEF Dist, Parent
-    <2>6. Dist(cur) \in Nat /\ Dist(cur') \in Nat BY <2>4, <2>2, <1>0 DEF Dist, Parent
-    <2> QED BY <2>1, <2>5, <2>6 DEF Rank, PhaseRank
+    <2>5. RankOf(Parent(cur)) = RankOf(cur) - 1 BY <2>2, ChainFacts DEF AncestorsR
+    <2>6. RankOf(cur)' = RankOf(Parent(cur)) BY <2>1, <2>4 DEF RankOf
+    <2> QED BY <2>1, <2>5, <2>6, <1>0 DEF Rank, PhaseRank
   <1>5. CASE Stutter \/ UNCHANGED vars
     BY <1>5 DEF Stutter
   <1> QED BY <1>1, <1>2, <1>3, <1>4, <1>5 DEF Next
